@@ -416,10 +416,16 @@ def list_items(x):
     return list(x), z3.IntVal(len(x))
 
 
+def _keys_view(x):
+    return isinstance(x, KeysList) or (isinstance(x, SView) and x.kind == 'keys') or type(x).__name__ == 'dict_keys'
+
+
 def set_items(x):
     """[(guard, element)]"""
     if isinstance(x, SSet):
         return list(zip([zb(g) for g in x.guards], x.items))
+    if isinstance(x, SView) and x.kind == 'keys':
+        return [(zb(p), k) for p, k, v in x.d.slots]
     return [(z3.BoolVal(True), e) for e in x]
 
 
@@ -889,6 +895,13 @@ def sym_order(it, fr, o, l, r):
         if isinstance(other, _d.datetime):
             raise Unsupported('symbolic datetime compared with a concrete one')
     pairs = [(str, str), (list, list), (tuple, tuple), (bytes, bytes), ((set, frozenset), (set, frozenset))]
+    setlike = lambda x, t: issubclass(t, (set, frozenset)) or _keys_view(x)
+    if setlike(l, tl) and setlike(r, tr) and (_keys_view(l) or _keys_view(r)):
+        # dict key views are set-like
+        a, b = set_items(l), set_items(r)
+        sub = zand([z3.Implies(g, zor([z3.And(h, val_eq(it, fr, x, y)) for h, y in b])) for g, x in a])
+        sup = zand([z3.Implies(h, zor([z3.And(g, val_eq(it, fr, x, y)) for g, x in a])) for h, y in b])
+        return SBool({'<=': sub, '>=': sup, '<': z3.And(sub, z3.Not(sup)), '>': z3.And(sup, z3.Not(sub))}[o])
     if not any(issubclass(tl, a) and issubclass(tr, b) for a, b in pairs):
         raise PyExc(TypeError(f"'{o}' not supported between instances of '{tl.__name__}' and '{tr.__name__}'"))
     if issubclass(tl, str) and (isinstance(l, SStr) or isinstance(l, str)) and (isinstance(r, SStr) or isinstance(r, str)):
@@ -1648,7 +1661,7 @@ def dict_method(it, fr, d, name, args, kw):
     if name in ('items', 'keys', 'values') and isinstance(d, SDict):
         return SView(d, name)
     if name in ('items', 'keys', 'values') and isinstance(d, dict) and not args:
-        return list(getattr(d, name)())
+        return KeysList(d.keys()) if name == 'keys' else list(getattr(d, name)())
     if name == 'get':
         k = args[0]
         try:
